@@ -7,6 +7,56 @@ import traceback
 from . import common
 
 
+def replay_file(pid, path):
+    """Re-runs exactly the behaviour stored in a replay file against the current
+    tree and prints the verdict of every clause of property `pid` on it."""
+    import json
+    from . import impl
+    impl.ensure_repo()
+    rp = json.load(open(path))
+    case = rp.get('case') or {}
+    beh = case.get('behaviour')
+    print('replaying %s clause=%s' % (rp.get('property'), rp.get('clause')))
+    print('recorded observation: %s' % str(rp.get('what'))[:500])
+    if beh is None:
+        print('this replay file carries its case verbatim (no single behaviour to re-run):')
+        print(json.dumps(case)[:2000])
+        return 1
+    kind = beh.get('kind')
+    if kind == 'lp':
+        from . import solverplay
+        fn = solverplay.replay_lp
+    elif kind == 'bf':
+        from . import c07
+        fn = c07.replay_bf
+    elif kind == 'checker':
+        from . import c06
+        fn = c06.replay_checker
+    elif kind == 'fault':
+        from . import c14
+        fn = c14.replay_fault
+    elif kind == 'hist':
+        from . import c18
+        fn = c18.replay_hist
+    elif 'refused' in beh and 'order' in beh:
+        from . import c16
+        fn = c16.replay_opts
+    else:
+        print(json.dumps(case)[:2000])
+        return 1
+    results, info = fn('EXPORT', beh)
+    bad = 0
+    for (name, ok, key, what, c2, prop) in results:
+        own = prop is True or prop == pid
+        if own and not ok:
+            bad += 1
+            print('FAILS  %s: %s' % (name, str(what)[:400]))
+    print('%d clause(s) of %s fail on this behaviour now' % (bad, pid))
+    if bad:
+        print('VIOLATION property=%s replay=%s' % (pid, path))
+    return 1 if bad else 0
+
+
 def main():
     ap = argparse.ArgumentParser()
     ap.add_argument('pid')
@@ -23,7 +73,7 @@ def main():
     common.scratch()
     try:
         if a.replay:
-            rc = mod.replay_file(a.replay, tier, seed)
+            rc = replay_file(pid, a.replay)
         else:
             rc = mod.main(tier, seed)
     except common.MachineryError as e:
